@@ -426,7 +426,7 @@ func TestConnectionHistory(t *testing.T) {
 			bs *simbmc.Session
 		}
 		var sessions []live
-		opens, inCmds, retx := 0, 0, 0
+		opens, inCmds, retx, setLevels := 0, 0, 0, 0
 		sc := &hx.Scripter{}
 		command := func(t *rapid.T, c conn, bs *simbmc.Session) {
 			call := rapid.SampledFrom(cat).Draw(t, "command").Prepare(t, w.BMC)
@@ -494,6 +494,58 @@ func TestConnectionHistory(t *testing.T) {
 				command(t, l.s, l.bs)
 				inCmds++
 			},
+			"method": func(t *rapid.T) {
+				// the session's convenience methods build the request themselves: what
+				// arrives must be the request for this call's arguments, whatever was
+				// called on the session before
+				if len(sessions) == 0 {
+					t.Skip("no session")
+				}
+				l := sessions[rapid.IntRange(0, len(sessions)-1).Draw(t, "which")]
+				ctx, cancel := w.Ctx(2)
+				defer cancel()
+				w.BMC.Intercept = nil
+				before := len(w.BMC.Log)
+				var name string
+				var k uint16
+				want := map[string]uint64{}
+				n := 1
+				switch rapid.IntRange(0, 5).Draw(t, "method") {
+				case 0:
+					lvl := rapid.IntRange(0, 5).Draw(t, "level")
+					name, k, want["level"] = fmt.Sprintf("SetSessionPrivilegeLevel(%d)", lvl), uint16(ref.NetFnApp)<<8|uint16(ref.CmdSetSessPriv), uint64(lvl)
+					if lvl == 1 {
+						n = 0 // the request layer refuses CALLBACK
+					}
+					l.s.SetSessionPrivilegeLevel(ctx, ipmi.PrivilegeLevel(lvl))
+					setLevels++
+				case 1:
+					name, k, want["level"] = "GetSessionPrivilegeLevel()", uint16(ref.NetFnApp)<<8|uint16(ref.CmdSetSessPriv), 0
+					l.s.GetSessionPrivilegeLevel(ctx)
+					if setLevels > 0 {
+						ev.Label("history:privilege-query-after-change")
+					}
+				case 2:
+					c := rapid.IntRange(0, 5).Draw(t, "control")
+					name, k, want["control"] = fmt.Sprintf("ChassisControl(%d)", c), uint16(ref.NetFnChassis)<<8|uint16(ref.CmdChassisControl), uint64(c)
+					l.s.ChassisControl(ctx, ipmi.ChassisControl(c))
+				case 3:
+					num := rapid.Byte().Draw(t, "sensor")
+					name, k, want["number"] = fmt.Sprintf("GetSensorReading(%d)", num), uint16(ref.NetFnSensor)<<8|uint16(ref.CmdSensorReading), uint64(num)
+					l.s.GetSensorReading(ctx, num)
+				case 4:
+					name, k = "GetDeviceID()", uint16(ref.NetFnApp)<<8|uint16(ref.CmdGetDeviceID)
+					l.s.GetDeviceID(ctx)
+				case 5:
+					name, k = "GetSystemGUID()", uint16(ref.NetFnApp)<<8|uint16(ref.CmdGetSystemGUID)
+					l.s.GetSystemGUID(ctx)
+				}
+				ev.Eval()
+				if err := verifyN(w, before, n, name, k, 0, want, l.bs); err != nil {
+					t.Fatalf("session method: %v", err)
+				}
+				inCmds++
+			},
 			"close": func(t *rapid.T) {
 				if len(sessions) == 0 {
 					t.Skip("no session")
@@ -517,7 +569,7 @@ func TestConnectionHistory(t *testing.T) {
 }
 
 func TestCoverage(t *testing.T) {
-	need := []string{"history:reopen-after-in-session-traffic", "history:retransmissions-checked", "long-username-refused", "enum:cipher-suites", "enum:dcmi", "enum:dcmi-entity-instance", "handshake:auth1", "handshake:auth2", "handshake:auth3"}
+	need := []string{"history:privilege-query-after-change", "history:reopen-after-in-session-traffic", "history:retransmissions-checked", "long-username-refused", "enum:cipher-suites", "enum:dcmi", "enum:dcmi-entity-instance", "handshake:auth1", "handshake:auth2", "handshake:auth3"}
 	for _, e := range hx.Catalogue() {
 		_ = e
 	}
